@@ -2,7 +2,66 @@
 
 use crate::models;
 use crate::stubs::{any_bool, no, yes};
+use succinctly::bits::EliasFano;
 use succinctly::text::LineIndex;
+
+// ---- the monotone-sequence container, by specification ------------------------------------
+//
+// `LineIndex` stores its line starts in an `EliasFano` and only ever calls
+// `build`, `get`, `predecessor` and `len` on it. C03 decides that those answer
+// exactly like the plain sequence. `LineIndex::build` on symbolic text hands
+// `EliasFano::build` a symbolic NUMBER of elements (symbolic bit widths and array
+// sizes), which the bounded model checker cannot encode (one `build` of a single
+// element is already 4.5 M SAT variables). So in this property the container is
+// replaced by its specification: the values are recorded in a harness-side array
+// and the three queries answer from it. What is decided here is everything
+// `LineIndex` itself does: line-start computation (LF / CR / CRLF), the
+// one-entry cache, the capped forward walk, the inverse mapping.
+const CAP: usize = 48;
+static mut SEQ: [u32; CAP] = [0; CAP];
+static mut SEQ_LEN: usize = 0;
+
+fn ef_build(values: &[u32]) -> EliasFano {
+    assert!(values.len() <= CAP);
+    unsafe {
+        let mut i = 0;
+        while i < values.len() {
+            // the real constructor requires a non-decreasing input
+            assert!(i == 0 || values[i - 1] <= values[i]);
+            SEQ[i] = values[i];
+            i += 1;
+        }
+        SEQ_LEN = values.len();
+        // never dereferenced: every accessor LineIndex uses is answered from SEQ
+        core::mem::MaybeUninit::<EliasFano>::zeroed().assume_init()
+    }
+}
+fn ef_get(_ef: &EliasFano, i: usize) -> Option<u32> {
+    unsafe {
+        if i < SEQ_LEN {
+            Some(SEQ[i])
+        } else {
+            None
+        }
+    }
+}
+fn ef_len(_ef: &EliasFano) -> usize {
+    unsafe { SEQ_LEN }
+}
+/// Last index holding the largest element <= v.
+fn ef_predecessor(_ef: &EliasFano, v: u32) -> Option<(usize, u32)> {
+    unsafe {
+        let mut best = None;
+        let mut i = 0;
+        while i < SEQ_LEN {
+            if SEQ[i] <= v {
+                best = Some((i, SEQ[i]));
+            }
+            i += 1;
+        }
+        best
+    }
+}
 
 /// Naive scan: (line, column) of `off` where LF, CR and CRLF are single breaks
 /// and a break at the very end of the text starts no line. Offsets past the end
@@ -78,15 +137,15 @@ fn spec_off(t: &[u8], line: usize, col: usize) -> Option<usize> {
     }
 }
 
-/// Symbolic text: history (q1; q2; q2) plus the inverse mapping.
+/// Symbolic text, part 1: every query history (q1; q2; q2) of to_line_column.
 macro_rules! text_len {
     ($name:ident, $n:expr) => {
         #[kani::proof]
         #[kani::unwind(8)]
-        #[kani::stub(succinctly::util::simd::x86::has_fast_bmi2, no)]
-        #[kani::stub(std_detect::detect::__is_feature_detected::avx2, yes)]
-        #[kani::stub(core::arch::x86_64::_mm256_shuffle_epi8, models::mm256_shuffle_epi8)]
-        #[kani::stub(core::arch::x86_64::_mm256_sad_epu8, models::mm256_sad_epu8)]
+        #[kani::stub(succinctly::bits::EliasFano::build, ef_build)]
+        #[kani::stub(succinctly::bits::EliasFano::get, ef_get)]
+        #[kani::stub(succinctly::bits::EliasFano::predecessor, ef_predecessor)]
+        #[kani::stub(succinctly::bits::EliasFano::len, ef_len)]
         fn $name() {
             let t: [u8; $n] = kani::any();
             let li = LineIndex::build(&t);
@@ -99,17 +158,9 @@ macro_rules! text_len {
             assert!(a1 == spec_lc(&t, q1));
             assert!(a2 == spec_lc(&t, q2));
             assert!(a3 == a2);
-            // inverse mapping and round trip of in-bounds offsets
-            if q2 < $n {
-                assert!(li.to_offset(a2.0, a2.1) == Some(q2));
-            }
-            let l: usize = kani::any();
-            let c: usize = kani::any();
-            kani::assume(l <= $n + 2 && c <= $n + 2);
-            assert!(li.to_offset(l, c) == spec_off(&t, l, c));
             assert!(li.text_len() == $n);
-            kani::cover!(a2.0 == $n && q1 > q2);
-            kani::cover!(a1.0 == 2 && a2.0 == 1);
+            kani::cover!($n < 2 || (a2.0 >= 2 && q1 > q2));
+            kani::cover!($n < 2 || (a1.0 == 2 && a2.0 == 1));
             core::mem::forget(li);
         }
     };
@@ -120,6 +171,39 @@ text_len!(c12_text_len2, 2);
 text_len!(c12_text_len3, 3);
 text_len!(c12_text_len4, 4);
 text_len!(c12_text_len5, 5);
+text_len!(c12_text_len6, 6);
+text_len!(c12_text_len8, 8);
+
+/// Symbolic text, part 2: the inverse mapping and the round trip of in-bounds
+/// offsets, after an arbitrary earlier query (so the cache is in any state).
+macro_rules! text_inverse {
+    ($name:ident, $n:expr) => {
+        #[kani::proof]
+        #[kani::unwind(8)]
+        #[kani::stub(succinctly::bits::EliasFano::build, ef_build)]
+        #[kani::stub(succinctly::bits::EliasFano::get, ef_get)]
+        #[kani::stub(succinctly::bits::EliasFano::predecessor, ef_predecessor)]
+        #[kani::stub(succinctly::bits::EliasFano::len, ef_len)]
+        fn $name() {
+            let t: [u8; $n] = kani::any();
+            let li = LineIndex::build(&t);
+            let q: usize = kani::any();
+            kani::assume(q < $n);
+            let a = li.to_line_column(q);
+            assert!(li.to_offset(a.0, a.1) == Some(q));
+            let l: usize = kani::any();
+            let c: usize = kani::any();
+            kani::assume(l <= $n + 2 && c <= $n + 2);
+            assert!(li.to_offset(l, c) == spec_off(&t, l, c));
+            assert!(li.line_count() == spec_lc(&t, $n + 5).0);
+            kani::cover!(l == 2 && c == 1 && li.to_offset(l, c).is_some());
+            core::mem::forget(li);
+        }
+    };
+}
+text_inverse!(c12_inverse_len3, 3);
+text_inverse!(c12_inverse_len5, 5);
+text_inverse!(c12_inverse_len7, 7);
 
 /// Concrete multi-line skeletons: every pair of queries (forward walks shorter
 /// and longer than the 16-line cap, backward jumps, repeats, past-the-end).
@@ -130,10 +214,10 @@ macro_rules! skeleton {
     ($name:ident, $text:expr) => {
         #[kani::proof]
         #[kani::unwind(8)]
-        #[kani::stub(succinctly::util::simd::x86::has_fast_bmi2, no)]
-        #[kani::stub(std_detect::detect::__is_feature_detected::avx2, yes)]
-        #[kani::stub(core::arch::x86_64::_mm256_shuffle_epi8, models::mm256_shuffle_epi8)]
-        #[kani::stub(core::arch::x86_64::_mm256_sad_epu8, models::mm256_sad_epu8)]
+        #[kani::stub(succinctly::bits::EliasFano::build, ef_build)]
+        #[kani::stub(succinctly::bits::EliasFano::get, ef_get)]
+        #[kani::stub(succinctly::bits::EliasFano::predecessor, ef_predecessor)]
+        #[kani::stub(succinctly::bits::EliasFano::len, ef_len)]
         fn $name() {
             let t: &[u8] = $text;
             let li = LineIndex::build(t);
@@ -161,10 +245,10 @@ skeleton!(c12_skeleton_40, SK40);
 
 #[kani::proof]
 #[kani::unwind(8)]
-#[kani::stub(succinctly::util::simd::x86::has_fast_bmi2, no)]
-#[kani::stub(std_detect::detect::__is_feature_detected::avx2, yes)]
-#[kani::stub(core::arch::x86_64::_mm256_shuffle_epi8, models::mm256_shuffle_epi8)]
-#[kani::stub(core::arch::x86_64::_mm256_sad_epu8, models::mm256_sad_epu8)]
+#[kani::stub(succinctly::bits::EliasFano::build, ef_build)]
+#[kani::stub(succinctly::bits::EliasFano::get, ef_get)]
+#[kani::stub(succinctly::bits::EliasFano::predecessor, ef_predecessor)]
+#[kani::stub(succinctly::bits::EliasFano::len, ef_len)]
 fn c12_witness_must_fail() {
     let t: [u8; 3] = kani::any();
     let li = LineIndex::build(&t);
@@ -185,3 +269,4 @@ fn c12_witness_must_fail() {
     assert!(li.to_line_column(q).0 == lf_only);
     core::mem::forget(li);
 }
+
